@@ -596,8 +596,7 @@ def section_prefixes_of_property(model, qname, prop):
     out = set()
     for ev in cx.events:
         if ev.kind == "return":
-            alts = ev.value[1] if ev.value[0] == "phi" else (ev.value,)
-            for a in alts:
+            for a in T.alts(ev.value):
                 if a[0] == "fmt" and len(a[1]) == 2 and a[1][0][0] == "const" and T.attr_chain(a[1][1]) == "%s.uid" % cx.selfname:
                     out.add(a[1][0][1])
                 else:
@@ -1426,21 +1425,38 @@ def r_general_prov(model, rep):
                 else:
                     ok = lst == ("call", ("global", "sorted"), (("attr", ("attr", S, "_metadata"), "variants"),), ())
         mv = e.value
+        mv_raw = raw if raw is not None else mv
         ob("variant", ok and not e.guards, "variant must be main_variant when given, else the first of the sorted top-level ids: %s" % T.show(v), e)
     for key, primary, fallback in (("packagedir", "packages", "source_packages"), ("repository", "repository", "source_repository")):
         es = E.get(key, [])
-        ok = len(es) == 2
+        ok = bool(es)
         msg = "[general]/%s must be written from paths.%s, falling back to paths.%s only in a 'src' tree" % (key, primary, fallback)
         if ok and mv is not None:
-            base = ("attr", ("sub", ("attr", ("attr", S, "_metadata"), "variants"), mv), "paths")
+            # what is written in each of the eight cases (binary path set?, src tree?, source path set?), whatever the spelling:
+            # if/elif with two writes, one write of a value chosen before, a helper per option ...
+            base = ("attr", ("sub", ("attr", ("attr", S, "_metadata"), "variants"), mv_raw), "paths")
             pv = ("attr", base, primary)
             fv = ("attr", base, fallback)
-            a, b = es
-            ok = a.value == pv and [(g[0], g[1]) for g in a.guards] == [(("cmp", ("is not",), (pv, ("const", None))), True)] \
-                and b.value == fv and [(g[0], g[1]) for g in b.guards] == [
-                    (("cmp", ("is not",), (pv, ("const", None))), False),
-                    (("boolop", "and", (("cmp", ("==",), (("attr", ("attr", ("attr", S, "_metadata"), "tree"), "arch"), ("const", "src"))),
-                                        ("cmp", ("is not",), (fv, ("const", None))))), True)]
+            p_none = ("cmp", ("is",), (pv, ("const", None)))
+            f_none = ("cmp", ("is",), (fv, ("const", None)))
+            is_src = ("cmp", ("==",), (("attr", ("attr", ("attr", S, "_metadata"), "tree"), "arch"), ("const", "src")))
+            for pn in (False, True):
+                for sr in (False, True):
+                    for fn_ in (False, True):
+                        sc = facts.Scenario(cx, atoms={p_none: pn, is_src: sr, f_none: fn_})
+                        want_v = pv if not pn else (fv if sr and not fn_ else None)
+                        got = []
+                        for e_ in es:
+                            h = sc.holds(e_.ev)
+                            if h is False:
+                                continue
+                            raw = facts.emit_raw(e_)
+                            val = T.degate(sc.term(raw)) if raw is not None else e_.value
+                            got.append((h, val))
+                        if want_v is None:
+                            ok = ok and not got
+                        else:
+                            ok = ok and len(got) == 1 and got[0][0] is True and got[0][1] == T.degate(want_v)
         rep.ob("R-GENERAL-PROV", "general/%s" % key, ok, site=cx.site(es[0].ev.lineno if es else f.node), msg="" if ok else msg)
     # main_variant passed through unchanged
     t = model.own_method("treeinfo.TreeInfo", "serialize")
